@@ -619,6 +619,21 @@ theorem C01_verify_hash_mod_n_secp256r1 (bf : Int) (Q : Pt) (hQ : OnCurve secp25
     verify secp256r1 bf Q z r s = verify secp256r1 bf Q z' r s :=
   C01_verify_hash_mod_n C01_ecdsaOk_secp256r1 bf Q hQ rQ (order_all_secp256r1 _) z z' r s hz hz' hzz
 
+/-! evaluated (tests, non-vacuity of `C01_verifying_keys_secp256k1`): (1) an honest signature — the signer verifies and is recovered at the
+abscissa `r`; (2) a constructed nonce point with `x(R) = n + 2 ≥ n` (`r = 2`): the keys recovered at the abscissa `r + n` verify
+`(z, 2, s)`, and recovery at the abscissa `r = 2`, which is all `Generator` users ask for, does not return them -/
+#guard (match Pycoin.RFC6979.sign secp256k1 0 12345 987654321, mulG secp256k1 0 12345 with
+  | .ok (r, s), .ok Q =>
+    (verify secp256k1 0 Q 987654321 r s matches .ok true) &&
+    (match possiblePublicPairsForSignature secp256k1 0 987654321 r s none with | .ok l => l.contains Q && l.length == 2 | _ => false)
+  | _, _ => false)
+#guard (match possiblePublicPairsForSignature secp256k1 0 987654321 (2 + secp256k1.n) 777 none,
+    possiblePublicPairsForSignature secp256k1 0 987654321 2 777 none with
+  | .ok [K0, K1], .ok l2 =>
+    (verify secp256k1 0 K0 987654321 2 777 matches .ok true) && (verify secp256k1 0 K1 987654321 2 777 matches .ok true) &&
+    !(l2.contains K0) && !(l2.contains K1) && (verify secp256k1 0 K0 987654321 3 777 matches .ok false)
+  | _, _ => false)
+
 end Pycoin.Gen.Curves
 
 /-! ## "the nonce depends on both key and hash", without cryptographic assumptions
